@@ -48,3 +48,8 @@ pub uninterp spec fn str_trimmed(s: Seq<char>) -> Seq<char>;
 pub assume_specification[str::to_lowercase](s: &str) -> (r: String) ensures r@ == str_lower(s@);
 pub assume_specification[str::to_uppercase](s: &str) -> (r: String) ensures r@ == str_upper(s@);
 pub assume_specification[str::trim](s: &str) -> (r: &str) ensures r@ == str_trimmed(s@);
+// Option::or / Option::and
+pub assume_specification<T>[Option::<T>::or](a: Option<T>, b: Option<T>) -> (r: Option<T>)
+    ensures a is Some ==> r == a, a is None ==> r == b;
+pub assume_specification<T, U>[Option::<T>::and](a: Option<T>, b: Option<U>) -> (r: Option<U>)
+    ensures a is Some ==> r == b, a is None ==> r is None;
